@@ -145,14 +145,16 @@ Proof.
   destruct Hy as [Hy|[[Hy|[Hy|[]]]|Hy]]; auto; try (apply M, hosts_nil_split; tauto). left. congruence.
 Qed.
 
+Lemma pre_submit s s1 h t : task_host t = h -> pre_of s s1 h -> pre_of s (submit s1 t) h.
+Proof. intros T P. unfold submit. destruct (session_shut s1); [apply pre_fail_with; exact P|apply pre_push; assumption]. Qed.
+
+Lemma pre_bump_counters s s1 h dcl : pre_of s s1 h -> pre_of s (bump_counters s1 dcl) h.
+Proof. intros (P & C & M). split; [exact P|split; [exact C|]]. intros y Hy. apply M. exact Hy. Qed.
+
 Lemma pre_bump s s1 h dcl t : task_host t = h -> pre_of s s1 h -> pre_of s (bump_retry s1 dcl t) h.
 Proof.
-  intros T (P & C & M). split; [exact P|split; [exact C|]]. intros y Hy.
-  apply hosts_nil_split in Hy. cbn [attempts queue errors bump_retry] in Hy.
-  destruct (is_some (fin_exc s1)).
-  - apply M, hosts_nil_split. tauto.
-  - rewrite map_app, in_app_iff in Hy. cbn in Hy.
-    destruct Hy as [Hy|[[Hy|[Hy|[]]]|Hy]]; auto; try (apply M, hosts_nil_split; tauto). left. congruence.
+  intros T P. unfold bump_retry. destruct (is_some (fin_exc s1)); [apply pre_bump_counters; exact P|].
+  apply pre_submit; [exact T|apply pre_bump_counters; exact P].
 Qed.
 
 Lemma pre_set_attempts_done s i h : pre_of s (set_attempts s (mark_done i (attempts s))) h.
@@ -214,7 +216,7 @@ Proof.
     { intros [[pid qs] ks] G. unfold unprep_go in G.
       destruct (negb (uses_ks c) && is_some ks && negb (opt_eqb (conn_ks s0) ks)); inversion G; subst.
       - split; [apply pre_fail_with; assumption|auto].
-      - split; [apply pre_push; [reflexivity|assumption]|auto]. }
+      - split; [apply pre_submit; [reflexivity|assumption]|auto]. }
     destruct (fut_ps c) as [[[pid pqs] pks]|].
     + destruct (negb (pid =? id)).
       * inversion H; subst. split; [apply pre_fail_with; assumption|auto].
@@ -317,7 +319,7 @@ Proof.
     { intros A. apply A, hosts_nil_split. left. eapply nth_error_host_in; eauto. }
     assert (P0 : pre_of s (set_attempts s (mark_done i (attempts s))) (a_host a)) by apply pre_set_attempts_done.
     destruct (a_prep a).
-    + inversion H; subst. apply (pre_ok _ s _ (a_host a)); auto. apply pre_push; [reflexivity|exact P0].
+    + inversion H; subst. apply (pre_ok _ s _ (a_host a)); auto. apply pre_submit; [reflexivity|exact P0].
     + destruct (Nat.eqb (a_page a) (page_no s)); [|inversion H; subst; apply (pre_ok _ s _ (a_host a)); auto].
       destruct (set_result_pre _ _ _ _ _ _ _ P0 H) as (P1 & E1 & E2). apply (pre_ok _ s _ (a_host a)); auto.
   - destruct (nth_error (queue s) k) as [t|] eqn:N; [|inversion H; subst; apply ok_same; reflexivity].
